@@ -8,6 +8,8 @@
 pub const MAXREC: usize = 44;
 pub const MAXID: usize = 16; // payload ids 1..=15, 0 = none
 pub const MAXSTREAM: usize = 4;
+/// max. send records considered by the order oracle
+pub const MAXSEND: usize = 12;
 
 pub const OP_NONE: u8 = 0;
 pub const OP_SEND: u8 = 1;
@@ -248,71 +250,85 @@ pub fn check_c01(nstreams: u8, full: u8) {
 // C02: one common FIFO order (acyclicity of the observed precedence relation)
 
 pub fn check_c02() {
+    // Nodes of the precedence graph are the (concretely known) send records; a successful receive
+    // is attached to the send whose id it delivered.  All array indices below are concrete; only
+    // the edge conditions are symbolic (this keeps the oracle cheap for the solver and for symex).
     let l = lg();
-    let mut before = [[false; MAXID]; MAXID];
-    // (a) program order of one producer, (b) real-time order of non-overlapping sends
+    let mut sends = [0usize; MAXSEND];
+    let mut ns = 0;
+    let mut i = 0;
+    while i < MAXREC {
+        if l.recs[i].kind == OP_SEND && ns < MAXSEND {
+            sends[ns] = i;
+            ns += 1;
+        }
+        i += 1;
+    }
+    let mut before = [[false; MAXSEND]; MAXSEND];
+    // (a) program order of one producer and (b) real-time order of non-overlapping sends
+    let mut p = 0;
+    while p < ns {
+        let a = l.recs[sends[p]];
+        let mut q = 0;
+        while q < ns {
+            let b = l.recs[sends[q]];
+            if p != q && a.res == R_OK && b.res == R_OK && a.te < b.tb {
+                before[p][q] = true;
+            }
+            q += 1;
+        }
+        p += 1;
+    }
+    // (c,d) receive a returned before receive b began, on the same stream: id(a) before id(b)
+    // (e)   receive a returned before send q began: id(a) before q
     let mut i = 0;
     while i < MAXREC {
         let a = l.recs[i];
-        if a.kind == OP_SEND && a.res == R_OK {
+        if a.kind == OP_RECV {
+            let a_ok = a.res == R_OK;
             let mut j = 0;
             while j < MAXREC {
                 let b = l.recs[j];
-                if j != i && b.kind == OP_SEND && b.res == R_OK && a.te < b.tb {
-                    before[a.id as usize][b.id as usize] = true;
+                if j != i && b.kind == OP_RECV && b.stream == a.stream {
+                    let c = a_ok && b.res == R_OK && a.te < b.tb;
+                    let mut p = 0;
+                    while p < ns {
+                        let ida = l.recs[sends[p]].id;
+                        let mut q = 0;
+                        while q < ns {
+                            if p != q && c && a.id == ida && b.id == l.recs[sends[q]].id {
+                                before[p][q] = true;
+                            }
+                            q += 1;
+                        }
+                        p += 1;
+                    }
                 }
                 j += 1;
+            }
+            let mut q = 0;
+            while q < ns {
+                let b = l.recs[sends[q]];
+                let c = a_ok && b.res == R_OK && a.te < b.tb;
+                let mut p = 0;
+                while p < ns {
+                    if p != q && c && a.id == l.recs[sends[p]].id {
+                        before[p][q] = true;
+                    }
+                    p += 1;
+                }
+                q += 1;
             }
         }
         i += 1;
     }
-    // (c) one consumer's own receive order and (d) non-overlapping receives on one stream:
-    // both are "receive a returned before receive b began" on the same stream
-    let mut i = 0;
-    while i < MAXREC {
-        let a = l.recs[i];
-        if a.kind == OP_RECV && a.res == R_OK {
-            let mut j = 0;
-            while j < MAXREC {
-                let b = l.recs[j];
-                if j != i
-                    && b.kind == OP_RECV
-                    && b.res == R_OK
-                    && b.stream == a.stream
-                    && a.te < b.tb
-                {
-                    let (x, y) = ((a.id as usize) % MAXID, (b.id as usize) % MAXID);
-                    before[x][y] = true;
-                }
-                j += 1;
-            }
-        }
-        i += 1;
-    }
-    // (e) a value cannot be received before it was sent: send of y began after receive of x
-    //     returned  =>  x before y
-    let mut i = 0;
-    while i < MAXREC {
-        let a = l.recs[i];
-        if a.kind == OP_RECV && a.res == R_OK {
-            let mut j = 0;
-            while j < MAXREC {
-                let b = l.recs[j];
-                if b.kind == OP_SEND && b.res == R_OK && a.te < b.tb {
-                    before[(a.id as usize) % MAXID][b.id as usize] = true;
-                }
-                j += 1;
-            }
-        }
-        i += 1;
-    }
-    // transitive closure
-    let mut k = 1;
-    while k < MAXID {
-        let mut x = 1;
-        while x < MAXID {
-            let mut y = 1;
-            while y < MAXID {
+    // transitive closure over the send records
+    let mut k = 0;
+    while k < ns {
+        let mut x = 0;
+        while x < ns {
+            let mut y = 0;
+            while y < ns {
                 if before[x][k] && before[k][y] {
                     before[x][y] = true;
                 }
@@ -322,8 +338,8 @@ pub fn check_c02() {
         }
         k += 1;
     }
-    let mut x = 1;
-    while x < MAXID {
+    let mut x = 0;
+    while x < ns {
         assert!(
             !before[x][x],
             "C02: deliveries are not consistent with one common FIFO order"
